@@ -20,7 +20,8 @@ def allowedRawSites : List (String × String × String) :=
    ("src/drivers/__init__.py", "parseMsg", "string"),
    ("src/irclib.py", "Irc.feedMsg", "msg="),
    -- the emulated echo fed back to the plugins (fix b0e0eea): a plain copy, and it is not what is sent
-   ("src/irclib.py", "Irc.takeMsg", "msg=")]
+   ("src/irclib.py", "Irc.takeMsg", "msg="),
+   ("src/irclib.py", "Irc._takeMsg", "msg=")]
 
 /-- the filter commands a channel op may install as an outFilter: each maps text without CR/LF/NUL
 to text without CR/LF/NUL (letter substitutions, encoders, re-orderings; no decoder) -/
